@@ -66,6 +66,10 @@ fn run_pipeline(program: &Program, linear: bool) -> Outcome {
         let cfg = MetadataComputationConfig {
             linear_gas_solver: linear,
             linear_ap_change_solver: linear,
+            // The equation-based solver is cross-checked against the linear one by a documented
+            // debug assertion (`assert_eq_variables`, "Panics otherwise") that fires on valid corpus
+            // programs using builtin cost tokens; the flag below is the crate's own switch for it.
+            skip_non_linear_solver_comparisons: !linear,
             ..Default::default()
         };
         // gas-checked compilation when gas metadata can be computed, otherwise ap-change only
@@ -233,6 +237,199 @@ fn dump(
         ));
     }
     Ok(format!("(P {}\n {})", coq_list(&stmts).replace("; (", ";\n  ("), coq_list(&funcs)))
+}
+
+
+// ---------------- static CASM checks on accepted corpus programs (impl-level oracles) ----------------
+// * layout: statement ranges are contiguous, start at 0 and add up to the sizes of their instructions
+// * libfunc_ap_ok: on every path through the instructions of one statement, the ap movement equals
+//   the branch's declared ApChange::Known
+// * (necessary part of) libfunc_cost_ok: 90 * steps(path) <= declared Const cost of the branch
+//   (100 per step, minus at most one refunded 10-gas hole per step)
+use cairo_lang_casm::instructions::{Instruction, InstructionBody};
+use cairo_lang_casm::operand::{DerefOrImmediate, ResOperand};
+use num_bigint::BigInt;
+
+fn imm_i64(v: &BigInt) -> Option<i64> {
+    use std::convert::TryFrom;
+    i64::try_from(v.clone()).ok()
+}
+
+struct PathExit {
+    pc: usize,
+    ap: Option<i64>,
+    steps: usize,
+}
+
+fn statement_paths(instrs: &[Instruction], start: usize, end: usize) -> Option<Vec<PathExit>> {
+    // pc -> index
+    let mut at = HashMap::new();
+    let mut pc = start;
+    for (k, i) in instrs.iter().enumerate() {
+        at.insert(pc, k);
+        pc += i.body.op_size();
+    }
+    if pc != end {
+        return None;
+    }
+    let mut exits = vec![];
+    // (pc, ap, steps)
+    let mut stack: Vec<(usize, Option<i64>, usize)> = vec![(start, Some(0), 0)];
+    let mut budget = 20000;
+    while let Some((pc, ap, steps)) = stack.pop() {
+        budget -= 1;
+        if budget == 0 || steps > 4000 {
+            return None; // internal loop: not a straight-line-with-branches libfunc
+        }
+        if pc < start || pc >= end {
+            exits.push(PathExit { pc, ap, steps });
+            continue;
+        }
+        let Some(&k) = at.get(&pc) else { return None };
+        let i = &instrs[k];
+        let size = i.body.op_size();
+        let ap1 = if i.inc_ap { ap.map(|a| a + 1) } else { ap };
+        let rel = |d: &DerefOrImmediate| -> Option<usize> {
+            match d {
+                DerefOrImmediate::Immediate(v) => {
+                    let t = pc as i64 + imm_i64(&v.value)?;
+                    if t < 0 { None } else { Some(t as usize) }
+                }
+                _ => None,
+            }
+        };
+        match &i.body {
+            InstructionBody::AssertEq(a)
+                if matches!(&a.b, ResOperand::BinOp(b)
+                    if b.a == a.a
+                        && matches!(b.op, cairo_lang_casm::operand::Operation::Add)
+                        && matches!(&b.b, DerefOrImmediate::Immediate(v) if v.value != BigInt::from(0))) =>
+            {
+                // `[x] = [x] + c` with c != 0: the builder's `fail` - no run continues past it
+            }
+            InstructionBody::AssertEq(_) | InstructionBody::QM31AssertEq(_) | InstructionBody::Blake2sCompress(_) => {
+                stack.push((pc + size, ap1, steps + 1))
+            }
+            InstructionBody::AddAp(a) => {
+                let d = match &a.operand {
+                    ResOperand::Immediate(v) => imm_i64(&v.value),
+                    _ => None,
+                };
+                stack.push((pc + size, ap1.and_then(|x| d.map(|y| x + y)), steps + 1))
+            }
+            InstructionBody::Jump(j) => {
+                if !j.relative {
+                    return None;
+                }
+                stack.push((rel(&j.target)?, ap1, steps + 1))
+            }
+            InstructionBody::Jnz(j) => {
+                stack.push((pc + size, ap1, steps + 1));
+                stack.push((rel(&j.jump_offset)?, ap1, steps + 1));
+            }
+            // a call inside a libfunc: ap movement unknown afterwards (function_call is derived
+            // in the Coq theorem from the callee, other internal calls must be declared Unknown)
+            InstructionBody::Call(_) => stack.push((pc + size, None, steps + 1)),
+            InstructionBody::Ret(_) => return None,
+        }
+    }
+    Some(exits)
+}
+
+fn static_checks(
+    name: &str,
+    program: &Program,
+    info: &ProgramRegistryInfo,
+    casm: &CairoProgram,
+    gas: bool,
+    failures: &mut Vec<String>,
+    counts: &mut (usize, usize, usize),
+) {
+    let infos = &casm.debug_info.sierra_statement_info;
+    let mut fail = |what: String| {
+        failures.push(format!("{{\"program\": {:?}, \"why\": {:?}}}", name, what));
+    };
+    // ---- layout ----
+    let mut expected_start = 0usize;
+    for (i, si) in infos.iter().enumerate() {
+        if si.start_offset != expected_start {
+            fail(format!("layout: statement #{i} starts at {} but the previous one ended at {}", si.start_offset, expected_start));
+        }
+        let next_idx = infos.get(i + 1).map(|n| n.instruction_idx).unwrap_or(casm.instructions.len());
+        if next_idx < si.instruction_idx {
+            fail(format!("layout: statement #{i} instruction index decreases"));
+            return;
+        }
+        let size: usize = casm.instructions[si.instruction_idx..next_idx].iter().map(|x| x.body.op_size()).sum();
+        if si.end_offset != si.start_offset + size {
+            fail(format!("layout: statement #{i} range [{}, {}) but its instructions occupy {}", si.start_offset, si.end_offset, size));
+        }
+        expected_start = si.end_offset;
+    }
+    // ---- per-branch ap / steps ----
+    for (i, st) in program.statements.iter().enumerate() {
+        let Statement::Invocation(inv) = st else { continue };
+        let Ok(lf) = info.registry().get_libfunc(&inv.libfunc_id) else { continue };
+        let si = &infos[i];
+        let StatementKindDebugInfo::Invoke(dbg) = &si.additional_kind_info else { continue };
+        let next_idx = infos.get(i + 1).map(|n| n.instruction_idx).unwrap_or(casm.instructions.len());
+        let instrs = &casm.instructions[si.instruction_idx..next_idx];
+        let is_call = matches!(lf, CoreConcreteLibfunc::FunctionCall(_) | CoreConcreteLibfunc::CouponCall(_));
+        let is_gas = matches!(lf, CoreConcreteLibfunc::Gas(_) | CoreConcreteLibfunc::Coupon(_));
+        let Some(exits) = statement_paths(instrs, si.start_offset, si.end_offset) else {
+            counts.2 += 1;
+            continue;
+        };
+        for ex in exits {
+            // which branch does this exit belong to?
+            let mut matched = vec![];
+            for (k, b) in inv.branches.iter().enumerate() {
+                let t = StatementIdx(i).next(b.target).0;
+                let tstart = infos.get(t).map(|x| x.start_offset);
+                if tstart == Some(ex.pc) {
+                    matched.push(k);
+                }
+            }
+            if matched.is_empty() {
+                // jumps into shared code (const segments, panic paths) are not branch exits
+                continue;
+            }
+            counts.0 += 1;
+            if !is_call {
+                if let Some(ap) = ex.ap {
+                    let ok = matched.iter().any(|k| match dbg.result_branch_changes[*k].ap_change {
+                        ApChange::Known(x) => x as i64 == ap,
+                        ApChange::Unknown => true,
+                    });
+                    if !ok {
+                        fail(format!(
+                            "libfunc_ap_ok: #{i} {}: a path to branch {:?} moves ap by {} but the declared change is {:?}",
+                            inv.libfunc_id, matched, ap,
+                            matched.iter().map(|k| dbg.result_branch_changes[*k].ap_change).collect::<Vec<_>>()
+                        ));
+                    }
+                }
+            }
+            if gas && !is_gas {
+                counts.1 += 1;
+                let ok = matched.iter().any(|k| {
+                    let g = &dbg.result_branch_changes[*k].gas_cost;
+                    let c = g.get(&CostTokenType::Const).copied().unwrap_or(0);
+                    // builtin tokens are priced separately (their instruction is paid by the token)
+                    let other = g.iter().any(|(t, v)| *t != CostTokenType::Const && *v != 0);
+                    // a step may fill a pre-paid memory hole (store_local: steps 1, holes -1 => 90 per step)
+                    other || 90 * ex.steps as i64 <= c
+                });
+                if !ok {
+                    fail(format!(
+                        "libfunc_cost_ok: #{i} {}: a path to branch {:?} takes {} steps but the declared Const cost is {:?}",
+                        inv.libfunc_id, matched, ex.steps,
+                        matched.iter().map(|k| dbg.result_branch_changes[*k].gas_cost.get(&CostTokenType::Const).copied().unwrap_or(0)).collect::<Vec<_>>()
+                    ));
+                }
+            }
+        }
+    }
 }
 
 // ---------------- mutants ----------------
@@ -462,6 +659,8 @@ fn main() {
     let mut panics: Vec<String> = vec![];
     let mut accepted_terms: Vec<(String, usize, String)> = vec![]; // (name, n_stmts, term)
     let mut dump_errors: Vec<String> = vec![];
+    let mut static_failures: Vec<String> = vec![];
+    let mut static_counts: (usize, usize, usize) = (0, 0, 0);
     let mut n_programs = 0;
     let mut n_mutants = 0;
     let mut n_accepted_mutants = 0;
@@ -474,7 +673,9 @@ fn main() {
                       stage_counts: &mut HashMap<(bool, Stage), usize>,
                       accepted_terms: &mut Vec<(String, usize, String)>,
                       panics: &mut Vec<String>,
-                      dump_errors: &mut Vec<String>|
+                      dump_errors: &mut Vec<String>,
+                      static_failures: &mut Vec<String>,
+                      static_counts: &mut (usize, usize, usize)|
      -> bool {
         let o = run_pipeline(program, linear);
         *stage_counts.entry((is_mutant, o.stage)).or_insert(0) += 1;
@@ -489,6 +690,9 @@ fn main() {
         }
         let _ = &o.detail;
         if let Some((info, metadata, casm, gas)) = &o.accepted {
+            if !is_mutant {
+                static_checks(&name, program, info, casm, *gas, static_failures, static_counts);
+            }
             if program.statements.len() <= max_stmts_coq {
                 match dump(program, info, metadata, casm, *gas) {
                     Ok(t) => accepted_terms.push((name, program.statements.len(), t)),
@@ -516,6 +720,8 @@ fn main() {
                 &mut accepted_terms,
                 &mut panics,
                 &mut dump_errors,
+                &mut static_failures,
+                &mut static_counts,
             );
         }
         if program.statements.len() > max_stmts_mutate {
@@ -546,6 +752,8 @@ fn main() {
                 &mut accepted_terms,
                 &mut panics,
                 &mut dump_errors,
+                &mut static_failures,
+                &mut static_counts,
             ) {
                 n_accepted_mutants += 1;
             }
@@ -597,7 +805,7 @@ fn main() {
         .collect();
     sc.sort();
     let summary = format!(
-        "{{\"corpus_programs\": {}, \"mutants\": {}, \"accepted_mutants\": {}, \"accepted_dumped\": {}, \"dump_errors\": {}, \"impl_panics\": {}, \"shards\": {}, \"stages\": {{{}}}}}",
+        "{{\"corpus_programs\": {}, \"mutants\": {}, \"accepted_mutants\": {}, \"accepted_dumped\": {}, \"dump_errors\": {}, \"impl_panics\": {}, \"shards\": {}, \"static_failures\": {}, \"static_branch_paths\": {}, \"static_cost_paths\": {}, \"static_skipped_statements\": {}, \"stages\": {{{}}}}}",
         n_programs,
         n_mutants,
         n_accepted_mutants,
@@ -605,11 +813,16 @@ fn main() {
         dump_errors.len(),
         panics.len(),
         shards,
+        static_failures.len(),
+        static_counts.0,
+        static_counts.1,
+        static_counts.2,
         sc.join(", ")
     );
     fs::write(format!("{}/summary.json", out_dir), &summary).unwrap();
     fs::write(format!("{}/panics.json", out_dir), format!("[{}]", panics.join(",\n"))).unwrap();
     fs::write(format!("{}/dump_errors.txt", out_dir), dump_errors.join("\n")).unwrap();
+    fs::write(format!("{}/static_failures.json", out_dir), format!("[{}]", static_failures.join(",\n"))).unwrap();
     let samples: Vec<String> = accepted_terms.iter().rev().take(3).map(|(n, k, _)| format!("{n} ({k} statements)")).collect();
     fs::write(format!("{}/samples.txt", out_dir), samples.join("\n")).unwrap();
     println!("{}", summary);
